@@ -107,3 +107,272 @@ pub fn replay_prog(case: &J, rep: &mut Report) {
             "observed": obs_to_model(&obs), "observed_calls": built.log.to_model(), "why": why})),
     }
 }
+
+// ------------------------------------------------------------------------------------------
+// Engine `scenario` (C09, C11, C12, C15): builder operations, evaluations under a schedule.
+
+use std::future::Future;
+use std::pin::Pin;
+use std::task::Poll;
+
+fn rule_from_model(j: &J) -> Result<Rule, String> {
+    Ok(Rule::new(uncps(&j["name"])?, BTreeMap::new(), expr_from_model(&j["expr"])?))
+}
+
+enum Op {
+    Rule(Rule),
+    Rules(Vec<Rule>),
+    Func(J),
+    Funcs(Vec<J>),
+    Symbol(String, Value),
+    Symbols(Vec<(String, Value)>),
+}
+
+fn op_from_model(j: &J) -> Result<Op, String> {
+    Ok(match j["op"].as_str().ok_or("op")? {
+        "with_rule" => Op::Rule(rule_from_model(&j["rule"])?),
+        "with_rules" => Op::Rules(j["rules"].as_array().ok_or("rules")?.iter().map(rule_from_model).collect::<Result<_, _>>()?),
+        "with_function" => Op::Func(j["f"].clone()),
+        "with_functions" => Op::Funcs(j["fs"].as_array().ok_or("fs")?.clone()),
+        "with_symbol" => Op::Symbol(uncps(&j["n"])?, from_model(&j["v"])?),
+        "with_symbols" => Op::Symbols(j["tab"].as_array().ok_or("tab")?.iter().map(|kv| Ok((uncps(&kv[0])?, from_model(&kv[1])?))).collect::<Result<_, String>>()?),
+        o => return Err(format!("unknown builder op {o}")),
+    })
+}
+
+fn apply(b: Builder, op: &Op, log: &Arc<Log>) -> Result<reval::Result<Builder>, String> {
+    Ok(match op {
+        Op::Rule(r) => b.with_rule(r.clone()),
+        Op::Rules(rs) => b.with_rules(rs.clone()),
+        Op::Func(f) => b.with_function(modelfn_from_model(f, log.clone())?),
+        Op::Funcs(fs) => {
+            let mut v: Vec<Box<dyn UserFunction + Send + Sync + 'static>> = Vec::new();
+            for f in fs {
+                v.push(Box::new(modelfn_from_model(f, log.clone())?));
+            }
+            b.with_functions(v)
+        }
+        Op::Symbol(n, v) => Ok(b.with_symbol(n.clone(), v.clone())),
+        Op::Symbols(tab) => b.with_symbols(Symbols::from(tab.clone())),
+    })
+}
+
+/// run the builder part; returns the ruleset, the rules accepted (in order) and the log
+fn run_builder(case: &J, log: &Arc<Log>) -> Result<Result<(RuleSet, Vec<Rule>), String>, String> {
+    // shorthand: env + rules
+    if case.get("builder").is_none() {
+        let mut rules = Vec::new();
+        for r in case["rules"].as_array().ok_or("TOOL: rules")? {
+            rules.push(rule_from_model(r)?);
+        }
+        let mut b = ruleset();
+        for r in &rules {
+            b = match b.with_rule(r.clone()) {
+                Ok(b) => b,
+                Err(e) => return Ok(Err(format!("with_rule refused {}: {e}", r.name()))),
+            };
+        }
+        if let Some(fs) = case["env"]["funcs"].as_array() {
+            for f in fs {
+                b = match b.with_function(modelfn_from_model(f, log.clone())?) {
+                    Ok(b) => b,
+                    Err(e) => return Ok(Err(format!("with_function refused: {e}"))),
+                };
+            }
+        }
+        if let Some(ss) = case["env"]["syms"].as_array() {
+            for s in ss {
+                b = b.with_symbol(uncps(&s[0])?, from_model(&s[1])?);
+            }
+        }
+        return Ok(Ok((b.build(), rules)));
+    }
+    let ops_j = case["builder"].as_array().ok_or("TOOL: builder")?;
+    let mut ops = Vec::new();
+    for o in ops_j {
+        ops.push(op_from_model(o)?);
+    }
+    let mut accepted: Vec<usize> = Vec::new();
+    let mut b = ruleset();
+    for (i, op) in ops.iter().enumerate() {
+        let exp = &ops_j[i]["x"];
+        let res = std::panic::catch_unwind(std::panic::AssertUnwindSafe(|| apply(b, op, log)));
+        let res = match res {
+            Err(p) => return Ok(Err(format!("builder op {} panicked: {}", i + 1, panic_msg(p)))),
+            Ok(r) => r?,
+        };
+        let obs = match &res {
+            Ok(_) => Obs::Ok(Value::None),
+            Err(e) => classify(e),
+        };
+        let expj = if exp["ok"].as_bool() == Some(true) { json!({"ok": true, "v": {"t": "None"}}) } else { exp.clone() };
+        if let Err(why) = matches(&expj, &obs) {
+            return Ok(Err(format!("builder op {} ({}) [{}:{}]: {}", i + 1, ops_j[i]["op"], ops_j[i]["op"].as_str().unwrap_or("?"), crate::ops::class_of(exp), why)));
+        }
+        b = match res {
+            Ok(nb) => {
+                accepted.push(i);
+                nb
+            }
+            Err(_) => {
+                // the refused call consumed the builder: rebuild the accepted prefix
+                let mut nb = ruleset();
+                for &k in &accepted {
+                    nb = apply(nb, &ops[k], log)?.map_err(|e| format!("TOOL: replaying accepted op {k} failed: {e}"))?;
+                }
+                nb
+            }
+        };
+    }
+    let mut rules = Vec::new();
+    for &k in &accepted {
+        match &ops[k] {
+            Op::Rule(r) => rules.push(r.clone()),
+            Op::Rules(rs) => rules.extend(rs.iter().cloned()),
+            _ => {}
+        }
+    }
+    Ok(Ok((b.build(), rules)))
+}
+
+fn outcomes_match(exp: &J, got: &[reval::ruleset::Outcome], rules: &[Rule]) -> Result<(), String> {
+    let exp = exp.as_array().ok_or("TOOL: expected outcomes not an array")?;
+    if exp.len() != got.len() {
+        return Err(format!("{} outcomes expected, {} returned", exp.len(), got.len()));
+    }
+    for (i, (e, g)) in exp.iter().zip(got.iter()).enumerate() {
+        let name = uncps(&e["rule"]).map_err(|e| format!("TOOL: {e}"))?;
+        if g.rule.name() != name {
+            return Err(format!("outcome {} carries rule {:?}, expected {:?}", i + 1, g.rule.name(), name));
+        }
+        if let Some(r) = rules.get(i) {
+            if g.rule != r {
+                return Err(format!("outcome {} carries a rule different from the {}-th rule added", i + 1, i + 1));
+            }
+        }
+        let obs = match &g.value {
+            Ok(v) => Obs::Ok(v.clone()),
+            Err(e) => classify(e),
+        };
+        matches(&e["o"], &obs).map_err(|w| format!("outcome {} (rule {}): {}", i + 1, name, w))?;
+    }
+    Ok(())
+}
+
+pub fn replay_scenario(case: &J, rep: &mut Report) {
+    let key = format!("scenario:{}", case["key"].as_str().unwrap_or("?"));
+    let fail = |rep: &mut Report, why: String| {
+        if why.starts_with("TOOL:") {
+            rep.tool_error(why)
+        } else {
+            // builder mismatches are keyed by operation and prescribed class
+            let k = match (why.find('['), why.find(']')) {
+                (Some(a), Some(b)) if why.starts_with("builder op") && a < b => format!("{}:{}", key, &why[a + 1..b]),
+                _ => key.clone(),
+            };
+            rep.mismatch(&k, json!({"engine": "scenario", "case": case, "why": why}))
+        }
+    };
+    let log = Arc::new(Log::default());
+    let (rs, rules) = match run_builder(case, &log) {
+        Err(e) => return rep.tool_error(format!("scenario: {e}")),
+        Ok(Err(why)) => return fail(rep, why),
+        Ok(Ok(x)) => x,
+    };
+    let mut inputs = Vec::new();
+    for i in case["inputs"].as_array().map(|a| a.as_slice()).unwrap_or(&[]) {
+        match from_model(i) {
+            Ok(v) => inputs.push(v),
+            Err(e) => return rep.tool_error(format!("input: {e}")),
+        }
+    }
+    let before_inputs = inputs.clone();
+    type Fut<'a> = Pin<Box<dyn Future<Output = reval::Result<Vec<reval::ruleset::Outcome<'a>>>> + Send + 'a>>;
+    let n = inputs.len();
+    let mut futs: Vec<Option<Fut>> = (0..n).map(|_| None).collect();
+    let mut done: Vec<bool> = vec![false; n];
+    let exp_x = &case["x"];
+    let sched = case["schedule"].as_array().cloned().unwrap_or_default();
+    for (si, a) in sched.iter().enumerate() {
+        let e = a["e"].as_u64().unwrap_or(1) as usize - 1;
+        if e >= n {
+            return rep.tool_error(format!("schedule names evaluation {} of {}", e + 1, n));
+        }
+        let act = a["a"].as_str().unwrap_or("?");
+        match act {
+            "start" => futs[e] = Some(Box::pin(rs.evaluate_value(&inputs[e]))),
+            "drop" => futs[e] = None,
+            "poll" | "run" => {
+                if futs[e].is_none() && act == "run" {
+                    futs[e] = Some(Box::pin(rs.evaluate_value(&inputs[e])));
+                }
+                let mut polls = 0;
+                loop {
+                    let f = match futs[e].as_mut() {
+                        Some(f) => f,
+                        None => return rep.tool_error(format!("schedule step {} polls evaluation {} which is not live", si + 1, e + 1)),
+                    };
+                    rep.evaluations += 1;
+                    polls += 1;
+                    let r = match poll_once(f) {
+                        Err(p) => return fail(rep, format!("panic while polling evaluation {}: {p}", e + 1)),
+                        Ok(r) => r,
+                    };
+                    match r {
+                        Poll::Pending => {
+                            if act == "poll" {
+                                if a["ready"].as_bool() == Some(true) {
+                                    return fail(rep, format!("step {}: evaluation {} still pending, spec says ready", si + 1, e + 1));
+                                }
+                                break;
+                            }
+                            if polls > 100000 {
+                                return fail(rep, format!("evaluation {} does not complete", e + 1));
+                            }
+                        }
+                        Poll::Ready(res) => {
+                            if act == "poll" && a["ready"].as_bool() == Some(false) {
+                                return fail(rep, format!("step {}: evaluation {} completed, spec says still pending", si + 1, e + 1));
+                            }
+                            done[e] = true;
+                            let verdict = match &res {
+                                Err(err) => Err(format!("evaluate_value failed as a whole: {err}")),
+                                Ok(outs) => outcomes_match(&exp_x[e], outs, &rules),
+                            };
+                            drop(res);
+                            futs[e] = None;
+                            if let Err(why) = verdict {
+                                return fail(rep, format!("evaluation {}: {}", e + 1, why));
+                            }
+                            break;
+                        }
+                    }
+                }
+                if let Some(nc) = a.get("ncalls").and_then(|x| x.as_u64()) {
+                    let got = log.entries.lock().unwrap().len();
+                    if got as u64 != nc {
+                        return fail(rep, format!("after step {} ({} e{}) the invocation log has {} entries, spec says {}", si + 1, act, e + 1, got, nc));
+                    }
+                }
+            }
+            other => return rep.tool_error(format!("unknown schedule action {other}")),
+        }
+    }
+    drop(futs);
+    if let Err(why) = calls_match(&case["calls"], &log) {
+        return fail(rep, why);
+    }
+    // side-effect freedom: inputs unchanged (PartialEq on clones; NaN-free pools)
+    for (a, b) in before_inputs.iter().zip(inputs.iter()) {
+        if !value_matches(a, b) {
+            return fail(rep, "an input value changed during evaluation".into());
+        }
+    }
+    for (e, d) in done.iter().enumerate() {
+        if !*d && !exp_x[e].is_null() && sched.iter().any(|a| a["a"] == "run" && a["e"].as_u64() == Some(e as u64 + 1)) {
+            return fail(rep, format!("evaluation {} never completed", e + 1));
+        }
+    }
+    let nontrivial = case["calls"].as_array().map(|c| !c.is_empty()).unwrap_or(false) || rules.len() > 1 || case.get("builder").is_some();
+    rep.case_ok(nontrivial, || json!({"rules": rules.iter().map(|r| format!("{}: {}", r.name(), r.expr())).collect::<Vec<_>>(), "schedule": case["schedule"], "invocations": log.to_model()}));
+}
